@@ -64,6 +64,7 @@ var c04Generic = []map[string][]string{
 	{"Accept-Language": {"en"}}, {"Accept-Language": {"en, fr;q=0.5"}}, {"Accept-Language": {"fr"}}, {"Accept-Language": {"en;q=0.5, fr"}},
 	{"Accept": {"text/html"}}, {"Accept": {"application/json"}}, {"Accept": {"text/html;level=1"}},
 	{"User-Agent": {"a/1"}}, {"User-Agent": {"b/1"}},
+	{"User-Agent": {"bot \xe8"}}, {"User-Agent": {"bot \xe9"}}, {"User-Agent": {"\u212aelvin/1"}}, {"User-Agent": {"kelvin/1"}}, {"User-Agent": {"Kelvin/1"}},
 	// members that share a value but not its parameters; names that contain an alias
 	{"Accept": {"application/json;version=1"}}, {"Accept": {"application/json;version=1, application/json;version=2"}}, {"Accept": {"application/json;version=2"}},
 	{"Accept": {"text/html;level=1, text/html;level=2;q=0.5"}},
